@@ -334,6 +334,36 @@ def _solver(strategy):
 _skn = [0]
 
 
+def case_split(pieces, cases):
+    """contract-directed case analysis on a skolemised bound variable: G(v) follows from G(T) and (v != T ==> G(v))"""
+    if not cases:
+        return pieces
+    out = []
+    for p in pieces:
+        done = False
+        for var, term in cases:
+            sk = None
+            todo = [p]
+            seen = set()
+            while todo and sk is None:
+                x = todo.pop()
+                if x.get_id() in seen:
+                    continue
+                seen.add(x.get_id())
+                if z3.is_const(x) and x.decl().kind() == z3.Z3_OP_UNINTERPRETED and x.decl().name().startswith(var + '!q') and '!sk' in x.decl().name():
+                    sk = x
+                elif z3.is_app(x):
+                    todo.extend(x.children())
+            if sk is not None and sk.sort() == term.sort():
+                out.append(z3.substitute(p, (sk, term)))
+                out.append(z3.Implies(sk != term, p))
+                done = True
+                break
+        if not done:
+            out.append(p)
+    return out
+
+
 def split_goal(g, limit=40):
     """valid(g) <=> every piece valid: conjunctions in positive positions are split through `Implies` and outer `ForAll`
     (whose variables become fresh constants).  Smaller queries are much steadier for the solver."""
@@ -790,7 +820,7 @@ def verify_function(tu, reg, fname, prop='CVC', timeout_ms=None, kinds=None, rep
                 detail.append('remaining instances not tried (budget of this obligation used up)')
                 break
             r, dt, model, reason = 'unsat', 0.0, None, ''
-            for piece in split_goal(ob.goal):
+            for piece in case_split(split_goal(ob.goal), ob.cases):
                 r1, dt1, model1, reason1 = check(ob.pc, piece, timeout_ms)
                 dt += dt1
                 if TRACE:
